@@ -85,6 +85,10 @@ class SymStr:
         return self.text
 
 
+class KeysView(list):
+    """dict.keys(): a list (insertion order) that also supports the set operators."""
+
+
 class IterObj:
     """iter(x): a position in a materialised sequence."""
 
@@ -148,7 +152,7 @@ class SymSeq:
     """A sequence of unknown length (e.g. `args` of a callback in a length-agnostic query). Unused for now."""
 
 
-MATH_FUNCS = {"cos", "sin", "tan", "radians", "sqrt", "hypot", "atan2", "fabs", "ceil", "isfinite", "degrees", "floor"}
+MATH_FUNCS = {"cos", "sin", "tan", "radians", "sqrt", "hypot", "atan2", "fabs", "ceil", "isfinite", "degrees", "floor", "isclose"}
 MATH_CONSTS = {"pi": RF.sym("pi")}
 
 
@@ -307,6 +311,13 @@ class Interp:
             return self._etree
         if f"{module}.{attr}" in self.external:
             return PyCallable(self.external[f"{module}.{attr}"])
+        if module in getattr(self, "ext_modules", {}):
+            return self.ext_modules[module].sym_getattr(self, attr)
+        if module == "functools" and attr == "partial":
+            def _partial(it, a, k):
+                f0, pre, prek = a[0], list(a[1:]), dict(k)
+                return PyCallable(lambda it2, a2, k2: it2.call(f0, pre + list(a2), dict(prek, **k2)))
+            return PyCallable(_partial)
         if module == "re" and attr in ("split", "match", "fullmatch", "sub", "findall"):
             def _re(it, a, k, attr=attr):
                 import re as _re_mod
@@ -317,6 +328,8 @@ class Interp:
                     return r
                 raise Undecided(f"re.{attr} on symbolic text")
             return PyCallable(_re)
+        if module == "itertools" and attr == "count":
+            return PyCallable(lambda it, a, k: range(a[0] if a else 0, (a[0] if a else 0) + (1 << 16), a[1] if len(a) > 1 else 1))
         if module == "collections" and attr == "defaultdict":
             def _dd(it, a, k):
                 d = {"__default_factory__": a[0] if a else None}
@@ -708,7 +721,7 @@ class Interp:
             except PyRaise as e:
                 for h in st.handlers:
                     names = _handler_names(h)
-                    if not names or e.exc_type in names or "Exception" in names:
+                    if not names or e.exc_type in names or "Exception" in names or "BaseException" in names:
                         self.exec_block(h.body, env)
                         break
                 else:
@@ -854,6 +867,8 @@ class Interp:
                 return v
             if isinstance(v, Rec):
                 return False
+            if isinstance(v, (Ext, SymStr)):
+                return not self.decide(v)
             return not v
         if isinstance(n.op, ast.USub):
             if isinstance(v, Rec):
@@ -879,6 +894,9 @@ class Interp:
             if isinstance(l, Rec):
                 return self.rec_op(l, "__matmul__", [r])
             raise Undecided("@ on non-record")
+        if (isinstance(l, KeysView) or isinstance(r, KeysView)) and isinstance(l, (KeysView, set, frozenset)) and isinstance(r, (KeysView, set, frozenset)) \
+                and isinstance(op, (ast.BitOr, ast.BitAnd, ast.Sub, ast.BitXor)):
+            l, r = set(l), set(r)
         if isinstance(l, (set, frozenset)) and isinstance(r, (set, frozenset)) and isinstance(op, (ast.BitOr, ast.BitAnd, ast.Sub, ast.BitXor)):
             res = {ast.BitOr: l | r, ast.BitAnd: l & r, ast.Sub: l - r, ast.BitXor: l ^ r}[type(op)]
             return frozenset(res) if isinstance(l, frozenset) else set(res)
@@ -967,7 +985,7 @@ class Interp:
         for v in n.values:
             x = self.eval(v, env)
             last = x
-            if isinstance(x, (Cond, Unknown)) or (isinstance(x, RF) and not x.is_const()):
+            if isinstance(x, (Cond, Unknown)):
                 d = self._decide_cond(x) if isinstance(x, Cond) else None
                 if d is None:
                     if isinstance(x, Unknown):
@@ -1189,6 +1207,9 @@ class Interp:
                 return base
         if isinstance(base, Builtin):
             return Builtin(base.name + "." + attr)
+        if isinstance(base, (Bound, Closure)) and attr in ("cache_clear",):
+            # functools caches are not modelled (every call is evaluated afresh): clearing one is a no-op here
+            return PyCallable(lambda it, a, k: None)
         raise Undecided(f"attribute {attr} of {type(base).__name__}")
 
     def container_method(self, b, at, a, k):
@@ -1226,7 +1247,7 @@ class Interp:
                 kx = _h(a[0])
                 return b.get(kx, a[1] if len(a) > 1 else None)
             if at == "keys":
-                return list(b.keys())
+                return KeysView(b.keys())
             if at == "values":
                 return list(b.values())
             if at == "items":
@@ -1441,6 +1462,14 @@ class Interp:
                 return simplify_num(fn_atom("abs", a[0]))
             if fn == "isfinite":
                 return Cond("isfinite", (a[0],)) if isinstance(simplify_num(a[0]), RF) else True
+            if fn == "isclose":
+                x, y = simplify_num(a[0]), simplify_num(a[1])
+                if not isinstance(x, RF) and not isinstance(y, RF):
+                    import math
+                    return math.isclose(float(x), float(y), **{kk: float(vv) for kk, vv in kwargs.items()})
+                if to_rf(x).equals(to_rf(y)):
+                    return True
+                return Cond("isclose", (x, y))
             if fn == "ceil":
                 x = simplify_num(a[0])
                 if isinstance(x, RF):
@@ -1473,7 +1502,7 @@ class Interp:
                 if not isinstance(src, (list, tuple)):
                     raise PyRaise("TypeError", node, "next() of a non-iterator")
                 seen = self.__dict__.setdefault("_nexted", [])
-                if any(x is src for x in seen):
+                if len(src) and any(x is src for x in seen):
                     raise Undecided("repeated next() on one generator")
                 seen.append(src)
                 src = IterObj(src)
@@ -1483,6 +1512,14 @@ class Interp:
             if len(a) > 1:
                 return a[1]
             raise PyRaise("StopIteration", node)
+        if name == "map":
+            seqs = [self.iterate(x) for x in a[1:]]
+            return [self.call(a[0], list(xs), {}) for xs in zip(*seqs)]
+        if name == "filter":
+            items = self.iterate(a[1])
+            if a[0] is None:
+                return [x for x in items if self.decide(self.truth(x) if hasattr(self, "truth") else x)]
+            return [x for x in items if self.decide(self.call(a[0], [x], {}))]
         if name == "enumerate":
             return list(enumerate(self.iterate(a[0]), *(a[1:])))
         if name == "reversed":
@@ -1792,6 +1829,8 @@ def _h(x):
     if isinstance(x, RF):
         v = simplify_num(x)
         return v if not isinstance(v, RF) else repr(v)
+    if isinstance(x, Ext) and hasattr(x, "sym_hashkey"):
+        return x.sym_hashkey()
     return x
 
 
@@ -1854,6 +1893,7 @@ class Outcome:
     undecided: Optional[str] = None
     assumptions: List[str] = field(default_factory=list)
     raise_msg: str = ""
+    args: Any = None
 
     def cond_text(self):
         return " & ".join((repr(c) if v else f"not({c!r})") for c, v in self.decisions) or "true"
@@ -1939,6 +1979,8 @@ def explore(repo: Repo, fn, args: list, kwargs: Optional[dict] = None, max_paths
             import traceback as _tb
             where = _tb.extract_tb(e.__traceback__)[-1]
             outcomes.append(Outcome(list(it.taken), undecided=f"evaluator limitation ({type(e).__name__}: {e} at {where.name}:{where.lineno})"))
+        if outcomes and outcomes[-1].args is None and fresh_args is not None:
+            outcomes[-1].args = a
         if len(outcomes) + len(work) > max_paths:
             raise AnalysisError(f"symbolic exploration exceeded {max_paths} paths")
     return outcomes
